@@ -10,7 +10,8 @@ RULE = ("explicit-state BFS over histories of stream-cipher contexts: letters pr
         "tree mode = every letter sequence to the depth bound, graph mode = merge on ((block, offset), observed next-65-bytes) until the "
         "frontier is empty within 4 blocks + 1 consumed per seek; involution is checked with a second context fed the model ciphertext; "
         "DRG: every sequence of {bytes<N>, fill_bytes<N>(prior), fill_slice(l, prior), u32, u64} to the depth bound against a cursor into "
-        "the ChaCha<R>(seed, 0) keystream with prior buffer contents {00.., FF.., pattern}; non-trivial = some call with length > 0")
+        "the ChaCha<R>(seed, 0) keystream with prior buffer contents {00.., FF.., pattern}; non-trivial = some call with length > 0"
+        " Also: every DRG request size 0..=140 at cursor 0 and 4 for rounds 8/12/20; the corpus again on the checked-arithmetic, +sse4.1 and native builds.")
 ASSUMPTIONS = ["python keystream models as in C03", "DRG u32/u64 are the next 4/8 keystream bytes read big-endian (documented convention of this commit)",
                "content alphabet for keys, nonces, seeds, inputs and prior buffer contents"]
 
